@@ -66,7 +66,7 @@ def tree_case(draw):
         for _ in range(nreq):
             g = draw(st.integers(0, len(obs) - 1))
             req.append([g, draw(st.integers(1, obs[g]['nf']))])
-    return dict(obs=obs, conv=conv, req=req, staged=draw(st.booleans()), config=draw(st.sampled_from(['env', 'env', 'path', 'path-keywords', 'env-run2d-keyword'])), photo=draw(st.booleans()),
+    return dict(obs=obs, conv=conv, req=req, staged=draw(st.booleans()), run1d_empty=draw(st.sampled_from([False, False, True])) and conv != 'mjd-omitted', config=draw(st.sampled_from(['env', 'env', 'path', 'path-keywords', 'env-run2d-keyword'])), photo=draw(st.booleans()),
                 run2d=draw(st.sampled_from([RUN2D, RUN2D, 'trunk', '26', 'DR12x', 'master'])), plug_fiberid=draw(st.sampled_from(['rows', 'rows', 'unplugged', 'reversed'])))
 
 
@@ -110,7 +110,8 @@ def write_tree(top, case):
         z['Z'] = val(plate, mjd, 7, np.arange(nf) + 1, 0)
         z['PLATE'] = plate
         z['MJD'] = mjd
-        fits.HDUList([fits.PrimaryHDU(), fits.BinTableHDU(z)]).writeto(os.path.join(d, RUN1D, 'spZbest-%04d-%05d.fits' % (plate, mjd)))
+        # SDSS-I/II layout (run1d=''): the redshift file sits next to the spPlate file
+        fits.HDUList([fits.PrimaryHDU(), fits.BinTableHDU(z)]).writeto(os.path.join(d, '' if case.get('run1d_empty') else RUN1D, 'spZbest-%04d-%05d.fits' % (plate, mjd)))
         if case['photo']:
             t = np.zeros(nf, dtype=[('FIBERID', 'i4'), ('OBJC', 'f8')])
             t['FIBERID'] = np.arange(nf) + 1
@@ -163,6 +164,11 @@ def tree_body(case):
             kw.update(run2d=r2, run1d=RUN1D)
             for k in ('RUN2D', 'RUN1D', 'BOSS_SPECTRO_REDUX', 'SPECTRO_REDUX'):
                 os.environ.pop(k, None)
+        if case.get('run1d_empty'):
+            # an explicit empty run1d (what findspec(sdss=True) passes) while $RUN1D names a 1-D reduction that does not exist here
+            kw['run1d'] = ''
+            os.environ['RUN1D'] = 'decoy1d'
+            note_label('run1d-empty')
         plates = np.array([obs[g]['plate'] for g, f in req], dtype='i4')
         mjds = np.array([obs[g]['mjd'] for g, f in req], dtype='i4')
         fibs = np.array([f for g, f in req], dtype='i4')
